@@ -53,6 +53,7 @@ class Engine:
         self.cat = None
         self.batch = 0
         self.stalls = []
+        self.prior_hangs = []
 
     # ------------------------------------------------------------------ plumbing
     def setup(self):
@@ -141,7 +142,12 @@ class Engine:
         for sc, t in zip(scns, trs):
             if "stall" in (t.get("meta") or {}):
                 self.stalls.append("%s (%s/%s %s): %s" % (t["id"], sc["shape"], sc["pair"], json.dumps(sc["opts"]), t["meta"]["stall"]))
-        return [(sc, t) for sc, t in zip(scns, trs) if "stall" not in (t.get("meta") or {})]
+        # a copy of the preparation phase (the same client copying before the observed copy) that did not return:
+        # the scenario is dropped and counted; termination is not the subject of these properties
+        for sc, t in zip(scns, trs):
+            if "prior_hang" in (t.get("meta") or {}):
+                self.prior_hangs.append("%s (%s/%s %s)" % (t["id"], sc["shape"], sc["pair"], json.dumps(sc["opts"])))
+        return [(sc, t) for sc, t in zip(scns, trs) if "stall" not in (t.get("meta") or {}) and "prior_hang" not in (t.get("meta") or {})]
 
     def check_stalls(self):
         if self.stalls and not self.ctx.violations:
